@@ -10,6 +10,7 @@ import (
 	"path/filepath"
 	"sort"
 	"strings"
+	"time"
 
 	webp "github.com/deepteams/webp"
 	"github.com/deepteams/webp/animation"
@@ -100,13 +101,19 @@ func c13Cases(seed int64, repo string) []c13Case {
 	// large lossy + alpha decode: exercises the up-sampling / YUV->RGB kernels
 	bigA := mustEncode(imgs.Make(130, 67, "noise", "agradient", seed), nil)
 	add("decode lossy+alpha 130x67", decPix(bigA))
+	out = append(out, c13KernelCases()...)
 	return out
 }
 
 func c13Digests(seed int64, repo string) []string {
 	var lines []string
+	times := os.Getenv("VERIF_C13_TIMES") != ""
 	for _, c := range c13Cases(seed, repo) {
+		t0 := time.Now()
 		lines = append(lines, c.name+"\t"+fw.Digest(c.run()))
+		if d := time.Since(t0); times && d > 50*time.Millisecond {
+			fmt.Fprintf(os.Stderr, "time %v %s\n", d, c.name)
+		}
 	}
 	return lines
 }
@@ -131,7 +138,7 @@ func goEnv(e *fw.Env, extra ...string) []string {
 func init() {
 	fw.Register(&fw.Check{
 		ID: "C13", Level: "exploration", Shards: shards1,
-		Rule: "three builds of the current working tree (amd64 with AVX2 kernels; amd64 with AVX2 detection forced off = SSE2 kernels; GOOS=js GOARCH=wasm under node = portable pure-Go kernels) each print one digest per pipeline case: 15 pictures x 10 lossy + 4 lossless option sets (all Methods, sharp YUV, dithering, TargetSize, filters), decode of the whole still corpus (every partition count, transform class, alpha filter), of ~60 generator-made VP8L files and ~230 generator-made VP8 key frames (every header/mode/filter menu value, coefficient programs x magnitudes up to 2114), and playback of the animation corpus; digests must be equal case by case.  `go build` of every library package for a list of GOOS/GOARCH pairs (thorough: every pair `go tool dist list` reports that builds without cgo) must succeed; distinct = distinct (build, case) and (target)",
+		Rule:   "three builds of the current working tree (amd64 with AVX2 kernels; amd64 with AVX2 detection forced off = SSE2 kernels; GOOS=js GOARCH=wasm under node = portable pure-Go kernels) each print one digest per pipeline case: 15 pictures x 10 lossy + 4 lossless option sets (all Methods, sharp YUV, dithering, TargetSize, filters), decode of the whole still corpus (every partition count, transform class, alpha filter), of ~60 generator-made VP8L files and ~230 generator-made VP8 key frames (every header/mode/filter menu value, coefficient programs x magnitudes up to 2114), and playback of the animation corpus; digests must be equal case by case.  `go build` of every library package for a list of GOOS/GOARCH pairs (thorough: every pair `go tool dist list` reports that builds without cgo) must succeed; distinct = distinct (build, case) and (target)",
 		Assume: []string{"arm64 assembly cannot be executed here: arm64 and every other port is checked for compilation only", "js/wasm executes the files selected by !amd64 && !arm64 build constraints (the portable path) with 64-bit int; 32-bit behaviour is compile-only", "worker count pinned to 1, pools never reuse"},
 		Run: func(e *fw.Env, r *fw.Result) {
 			if len(e.Args) > 0 && e.Args[0] == "digests" {
